@@ -61,6 +61,8 @@ Inductive event :=
   | Begin (k : nat)             (* TR task k starts moving file data: INITIALIZING -> DOWNLOADING/UPLOADING *)
   | Interrupt (k : nat)         (* TR task k loses the file connection mid-transfer: DOWNLOADING -> INCOMPLETE (queued-like) *)
   | Finish (k : nat)            (* TR task k runs the transfer to its end *)
+  | Fail (k : nat)              (* TR task k fails the transfer (state.fail) but goes on: it still notifies the peer *)
+  | End_ (k : nat)              (* TR task k returns without touching the transfer *)
   | DoneCb (k : nat)            (* the done-callback of finished task k runs *)
   | Abort | Pause | Remove      (* user calls; the event is the whole call, including the awaited cancellation *)
   | Requeue                     (* user queue(): legitimate re-queue *)
@@ -180,6 +182,20 @@ Definition step (f : flags) (s : st) (e : event) : st * list obs :=
       | Some (mkTask _ TR Running) =>
           let s1 := match sstate s with Init | Transferring => with_state Done false s | _ => s end in
           (finish_task k TR s1, [OSend k; OField k])
+      | _ => (s, [])
+      end
+  | Fail k =>
+      match find_task s k with
+      | Some (mkTask _ TR Running) =>
+          match sstate s with
+          | Init | Transferring => (with_state Done false s, [OField k])
+          | _ => (s, [])
+          end
+      | _ => (s, [])
+      end
+  | End_ k =>
+      match find_task s k with
+      | Some (mkTask _ TR Running) => (finish_task k TR s, [])
       | _ => (s, [])
       end
   | DoneCb k =>
